@@ -9,7 +9,7 @@ COQ_TARGETS = ["theories/Props/C07.vo"]
 REQUIRES = ["From Coq Require Import List NArith ZArith Bool.",
             "From Coq.Strings Require Import Byte.",
             "From MS Require Import Base.Bytes Base.Outcome Webp.Huffman Webp.HuffmanSpec Webp.BitBufSpec Webp.Vp8l Webp.Vp8lSpec "
-            "Webp.Vp8lEvents Props.C07.",
+            "Webp.Vp8lProofsTop Props.C07.",
             "Import ListNotations.", "Open Scope N_scope."]
 COQCHK = ["MS.Props.C07"]
 from ._c07_theorems import THEOREMS_C07 as THEOREMS      # pinned statements (one file for C07 and C08)
@@ -120,19 +120,20 @@ def gen(run):
     nfail = sum(1 for f in files if f is None)
     if nfail:
         run.notes.append("encoder corpus: %d of %d encodes failed" % (nfail, len(files)))
+    npay = 0
     for f in files:
         if f is None:
             continue
         for kind, w, h, body in C.lossless_payloads(f):
-            if len(body) > 60000:
-                body = body[:60000]          # the header phase sits at the front; keep the cases small
-            yield C.case(w, h, body), "enc-" + kind
-            for k2, d in C.mutations(rng, body, 6 if quick else 20, 2 if quick else 6, 2 if quick else 6,
-                                     every_byte_upto=(48 if quick else 400)):
+            npay += 1
+            yield C.case(w, h, body[:60000]), "enc-" + kind       # the header phase sits at the front; keep the cases small
+            short = body[:8000]
+            every = 48 if quick else (400 if npay % 10 == 0 else 48)
+            for k2, d in C.mutations(rng, short, 6 if quick else 20, 2 if quick else 6, 2 if quick else 6, every_byte_upto=every):
                 yield C.case(w, h, d), "enc-%s-%s" % (kind, k2)
             if kind == "ALPH" and rng.random() < (0.3 if quick else 0.6) and len(f) < 30000:
                 yield "alphfile %s %s" % (C.hx(f), C.hx(body)), "alph-in-situ"
-                for k2, d in C.mutations(rng, body, 2, 1, 1)[:3]:
+                for k2, d in C.mutations(rng, short, 2, 1, 1)[:3]:
                     yield "alphfile %s %s" % (C.hx(f), C.hx(d)), "alph-in-situ-" + k2
 
 
@@ -195,9 +196,10 @@ def coq_bool(line, model_out):
 
 LEVEL_TEXT = ("Theorems (Coq, all byte strings, all dimensions in the container's range, no bound): the model of LosslessImage::read accepts exactly the "
               "streams whose header phase the independent materialising specification decodes under webpsan's two documented strictness choices "
-              "(C07_model_is_strict_spec), and every such stream is decoded by the reference reading of the specification (C07_model_sound); the nine violation "
-              "classes of the property as separate lemmas over the trace of the model run (C07_no_*); never a panic and the supplied fuel suffices "
-              "(C07_model_total). The property's first sentence is about libwebp, which cannot be proved about: libwebp 1.3.1's own header decoder is run on every "
+              "(C07_model_is_strict_spec: a simulation between the non-materialising validator and the materialising decoder), and every such stream is decoded "
+              "by the reference reading of the specification (C07_model_sound, full statement, not partial); the nine violation classes of the property as "
+              "corollaries, one per rule the specification reports (C07_no_*: the specification's first failing rule is X => not accepted); never a panic, never "
+              "an I/O error, and the supplied fuel suffices (C07_model_total). The property's first sentence is about libwebp, which cannot be proved about: libwebp 1.3.1's own header decoder is run on every "
               "generated case and must (a) accept whatever the implementation accepts and (b) agree with the extracted specification - that is sampling, stated as such.")
 LEVEL_NOTE = ("Trusted: Coq kernel; the hand-written model Vp8l.v (tied to the code by the correspondence batch, exact error kinds, two entry points); the "
               "specification Vp8lSpec.v (tied to libwebp by the same batch); libwebp 1.3.1 through hand-declared internals (VP8LDecodeHeader + its own "
